@@ -74,6 +74,13 @@ def run_config(fn, params, cfg_key, seed=0, tier="quick", options=None, max_path
     }
     # float reference first: real code on the witness inputs
     FB, ferr = run_float(fn, params, cfg_key, seed)
+    tries = 0
+    while ferr is not None and "did not converge" in ferr and tries < 4:
+        # the iterative rotation did not converge on this random witness: not a verdict, draw another witness
+        tries += 1
+        seed = seed + 7919
+        FB, ferr = run_float(fn, params, cfg_key, seed)
+        res["notes"].append("witness redrawn: Varimax iteration did not converge on the first random input")
     float_status = {o.name: o for o in FB.obligations}
     queue = [[]]
     seen_plans = set()
@@ -81,7 +88,12 @@ def run_config(fn, params, cfg_key, seed=0, tier="quick", options=None, max_path
     tags = set()
     stubset = set()
     first = True
+    budget = opts.get("budget_s", 150 if tier == "quick" else 1500)
     while queue:
+        if time.time() - t0 > budget and res["paths"] >= 1:
+            res["paths_incomplete"] += len(queue)
+            res["notes"].append(f"time budget of {budget}s reached: {len(queue)} pending path(s) not explored")
+            break
         if res["paths"] + res["paths_infeasible"] >= opts["max_paths"]:
             res["paths_incomplete"] += len(queue)
             break
@@ -90,6 +102,7 @@ def run_config(fn, params, cfg_key, seed=0, tier="quick", options=None, max_path
         if key in seen_plans:
             continue
         seen_plans.add(key)
+        opts["deadline"] = t0 + budget * 1.5
         ctx = Ctx(plan=plan, seed=seed, options=opts)
         B = SymBackend(ctx, cfg_key, seed, tier)
         B.refuted = {v["obligation"] for v in res["violations"]}
